@@ -34,4 +34,23 @@ PLAN = {
         quick=[dict(test="TestC20A", cases=24000, shards=8, timeout=600), dict(test="TestC20B", cases=4000, shards=8, timeout=600)],
         thorough=[dict(test="TestC20A", cases=960000, shards=12, timeout=3000, shrink=120), dict(test="TestC20B", cases=120000, shards=4, timeout=3000, shrink=120)],
     ),
+    "C01": dict(
+        level="exploration",
+        rule=("histories (pure data op lists, <= 40 steps quick / 80 thorough) on a chain with 1..5 (8) freshly bonded oracles of generated stakes: votes with nonce choice {own+1, last observed+1, own, own+2, far} "
+              "and up to 3 competing variants per event nonce over a generated plan of claim types, executeClaim through the precompile (also repeated / never parked), governance oracle-list updates, bond, add-delegate, "
+              "unbond, a remove->withdraw->re-approve->re-bond cycle, end-blocks (slashing with a small signed window) and oracle-set confirmations. Invariants after every step over the raw stores and a model of the "
+              "per-oracle cursor. non-trivial = >= 2 variants of one nonce received votes and some nonce was observed, or stake/membership changed while an attestation was open; distinct = distinct (oracle count, plan, op-kind/argument-class sequence)"),
+        assumptions=["claims enter through the MsgClaim handler with the unpacked claim (on this snapshot MsgClaim fails ValidateBasic after wire decoding, see DESIGN.md)", "pruning beyond 100 nonces is not reached in the quick tier"],
+        quick=[dict(test="TestC01", cases=1600, shards=8, timeout=900)],
+        thorough=[dict(test="TestC01", cases=48000, shards=16, timeout=3400, shrink=120)],
+    ),
+    "C02": dict(
+        level="exploration",
+        rule=("the C01 machine with 1..12 (20) oracles and stake distributions uniform-in-bounds / one whale / all minimal under generated delegate threshold (100,300,700,1000,10000 FX = power 1,3,7,10,100) and multiple; at the step an event becomes observed the harness "
+              "recomputes, from the pre-step store, the power of the DISTINCT registered oracles whose votes for exactly that content were accepted and requires 100*S >= 66*recorded total; recorded total >= power of online oracles after every step; "
+              "accepted vote => online registered oracle. non-trivial = an event observed with >= 2 voters of unequal stake, or a stake/membership change while an attestation was open"),
+        assumptions=["claims enter through the MsgClaim handler with the unpacked claim; the block-level signer clause is checked by TestC02Signer"],
+        quick=[dict(test="TestC02", cases=1600, shards=8, timeout=900)],
+        thorough=[dict(test="TestC02", cases=48000, shards=16, timeout=3400, shrink=120)],
+    ),
 }
